@@ -225,16 +225,25 @@ class PySet:
 
 
 class SymSeq:
-    """list/tuple of symbolic length: z3 Seq over elem sort; elem describes how to wrap elements"""
-    __slots__ = ('t', 'elem', 'facts')
+    """list/tuple of symbolic length: arr: z3 Array(Int -> elem sort), n: z3 Int length (>= 0).
+    Arrays + length instead of z3 Seq: index reasoning stays in LIA+arrays and models of long lists are cheap.
+    The object is a mutable cell (append/pop rebind arr, n) so that aliases see updates."""
+    __slots__ = ('arr', 'n', 'elem', 'facts')
 
-    def __init__(self, t, elem, facts=None):
-        self.t = t
+    def __init__(self, arr, n, elem, facts=None):
+        self.arr = arr
+        self.n = n
         self.elem = elem     # Kind
-        self.facts = facts   # optional enumeration facts (see lib.list_of_symmap)
+        self.facts = facts   # optional enumeration facts (see lib.symmap_keys)
 
     def __repr__(self):
-        return 'SymSeq<%s>' % (self.t,)
+        return 'SymSeq<n=%s>' % (self.n,)
+
+    def copy(self):
+        return SymSeq(self.arr, self.n, self.elem, self.facts)
+
+    def assign(self, other):
+        self.arr, self.n, self.facts = other.arr, other.n, other.facts
 
 
 class SymMap:
@@ -364,6 +373,18 @@ class BuiltinType:
         if name not in BuiltinType._cache:
             BuiltinType._cache[name] = BuiltinType(name)
         return BuiltinType._cache[name]
+
+
+class GenericAlias:
+    """typing.List[int] etc."""
+    __slots__ = ('origin', 'args')
+
+    def __init__(self, origin, args):
+        self.origin = origin      # BuiltinType
+        self.args = args          # tuple of values
+
+    def __repr__(self):
+        return '<GenericAlias %s%r>' % (self.origin, self.args)
 
 
 class ModuleVal:
